@@ -9,6 +9,11 @@ the return dictionary class, payload and instant; 'timeout' / 'none' rules; then
 subscriptions, bus listeners, webhook/MQTT registrations, tasks and timers must equal the census taken before
 the call - on every exit path.
 
+Also generated: set-up failures (an expression of a later condition that does not parse; the MQTT subscription of
+the call suspending for some passes or raising), occurrences right at the call / during that suspended
+subscription, 'shutdown' among the time specifications, the polling idiom (true state expression + timeout=0),
+and an occurrence a few ms before a timer instant of the wait with the loop stalled across it.
+
 Fault enumeration: the scenario is re-run with the waiting task cancelled at every loop pass between the
 call and its return (capped in the quick tier), through the reaper or a raw Task.cancel().
 """
@@ -27,16 +32,29 @@ from ..world import World
 PROPERTY = "C15"
 LEVEL = "fault_enumeration"
 RULE = (
-    "seeded generation of one task.wait_until call (1-4 condition kinds, timeout None/0/T, check_now/hold/hold_false) "
-    "with <=15 timed occurrences around it; per scenario one fault-free run plus one run per cancellation point = "
+    "seeded generation of one task.wait_until call (1-4 condition kinds, timeout None/0/T, check_now/hold/hold_false; "
+    "10% per event-like condition an unparsable expression, 25% of time conditions with 'shutdown', 8% polling idiom, "
+    "45% of MQTT waits with a suspended (1-7 passes) or failing subscription, 20% of waits with a timer an occurrence "
+    "2-4 ms before the instant + stall) with <=15 timed occurrences around it; per scenario one fault-free run plus one run per cancellation point = "
     "every loop pass between the call and its return (capped at 30 evenly spread points in quick, complete in "
     "thorough); distinct = scenario digest; non-trivial = the wait had >= 2 condition kinds or a hold, and a "
     "cancellation landed while it was subscribed"
 )
 ASSUMPTIONS = [
     "occurrences are on a 0.25 s grid, timers (timeout, once(now+T), hold, hold_false) off the grid by >= 0.07 s, so "
-    "the first qualifying occurrence is never decided by a tie; with timeout=0 and an immediately true state "
-    "condition either result is accepted",
+    "the first qualifying occurrence is never decided by a tie; an already true state expression with state_check_now "
+    "in effect and no state_hold is checked at the call, so it is the first qualifying occurrence whatever the "
+    "timeout (0 included: reference.rst 'checks any state_trigger immediately ... and will return immediately if so')",
+    "a set-up failure (an event/mqtt/webhook expression that does not parse, or the MQTT subscription raising because "
+    "the client is not available) must end the call and leave nothing behind; what the call returns/raises is "
+    "don't-care",
+    "an occurrence that arrives while the call is still making a (slow) subscription may or may not count "
+    "(reference.rst: events around the moment of the call can be missed): the return value is don't-care then, the "
+    "clean-up is not",
+    "the 'near' op puts one occurrence 2-4 ms before a timer instant of the wait and stalls the loop across it; if "
+    "that occurrence itself qualifies, it or the timer may be returned (simultaneous for a stalled loop, 30 ms window)",
+    "'shutdown' among the time specifications is not an instant and cannot occur while the call waits: the other "
+    "conditions are unaffected by it, and alone (without timeout) it means 'none'",
     "when a condition's expression raises before the first qualifying occurrence the return value is don't-care "
     "(the property only requires clean-up on that path)",
     "State.notify_var_last (last notified values) is not part of the census; empty per-variable tables count as absent",
@@ -47,7 +65,11 @@ TIERS = {
 }
 REACH_PROBES = ["cancel_while_subscribed", "timeout_fired", "time_trigger_fired", "event_returned", "state_returned",
                 "mqtt_returned", "webhook_returned", "none_returned", "filter_raised", "occurrence_before_call",
-                "hold_in_wait", "timeout_zero", "immediate_check_now", "second_waiter_woke_on_same_occurrence"]
+                "hold_in_wait", "timeout_zero", "immediate_check_now", "second_waiter_woke_on_same_occurrence",
+                "timeout_zero_with_true_state", "setup_parse_error", "setup_parse_error_with_other_conditions",
+                "subscribe_suspended", "subscribe_failed", "cancel_during_suspended_subscribe",
+                "occurrence_during_suspended_subscribe", "returned_by_occurrence_in_setup",
+                "shutdown_among_time_specs", "occurrence_just_before_timer_instant"]
 SHRINK_LISTS = [["ops"], ["spec", "conds"]]
 GRID = 0.25
 EXPR = "pyscript.v == '1'"
@@ -70,8 +92,27 @@ def gen(rng: random.Random, tier: str) -> dict:
             cond["spec"] = rng.choice(["once(now + 1.42s)", "once(now + 2.17s)", "once(now - 5s)",
                                        "period(now + 1.42s, 0.7s)"])
         conds.append(cond)
+    # set-up failures: the expression of one event-like condition does not parse (the call must raise and leave
+    # nothing behind, whichever conditions were set up before it)
+    for cond in conds:
+        if cond["kind"] in ("event", "mqtt", "webhook") and rng.random() < 0.1:
+            cond["filter"] = "syntax"
+    # 'shutdown' among the time specifications: not an instant, never occurs while waiting
+    for cond in conds:
+        if cond["kind"] == "time" and rng.random() < 0.25:
+            cond["spec"] = rng.choice(["shutdown", [cond["spec"], "shutdown"], ["shutdown", cond["spec"]]])
     timeout = rng.choice([None, None, 0, 0.97, 1.93])
     initial_v = rng.choice(["0", "1"])
+    if rng.random() < 0.08:
+        # the polling idiom: "is it true right now?" = a state condition checked at the call and a timeout of 0
+        timeout = 0
+        state = next((c for c in conds if c["kind"] == "state"), None)
+        if state is None:
+            state = {"kind": "state"}
+            conds.append(state)
+            conds.sort(key=lambda c: c["kind"])
+        state.update({"check_now": rng.choice([None, True]), "hold": None, "hold_false": rng.choice([None, None, 0.4])})
+        initial_v = rng.choice(["0", "1", "1"])
     cfg["initial_states"] = {"pyscript.v": [initial_v, {}], "pyscript.u": ["0", {}]}
     ops = []
     k = -rng.choice([0, 2, 3])
@@ -94,9 +135,43 @@ def gen(rng: random.Random, tier: str) -> dict:
             ops.append({"k": k, "kind": "webhook", "id": "hook_w", "payload": data})
         else:
             ops.append({"k": k, "kind": "stall", "s": 0.02})
+    # an occurrence a few ms before a timer instant of the wait (time specification or timeout), and the loop busy
+    # across the instant: the wake-up for the occurrence is handled when the instant has just passed
+    instants = []
+    for cond in conds:
+        if cond["kind"] == "time":
+            instants += [t for t in (1.42, 2.17) if f"now + {t}s" in str(cond["spec"])]
+    if timeout:
+        instants.append(timeout)
+    others = sorted(c["kind"] for c in conds if c["kind"] != "time")
+    if instants and others and rng.random() < 0.4:
+        sid += 1
+        data = {"n": rng.randint(0, 3), "kind": rng.choice(["a", "7"]), "id": sid}
+        inner = {
+            "state": {"kind": "set", "e": "pyscript.v", "s": rng.choice(["0", "2", "2"])},
+            "event": {"kind": "fire", "type": "ev_w", "data": data},
+            "mqtt": {"kind": "mqtt", "topic": "t/w", "payload": json.dumps(data, sort_keys=True)},
+            "webhook": {"kind": "webhook", "id": "hook_w", "payload": data},
+        }[rng.choice(others)]
+        at = (min(instants) if rng.random() < 0.8 else rng.choice(instants)) - rng.choice([0.002, 0.004])
+        ops.append({"k": int(at / GRID) + 0.5, "kind": "near", "at": round(at, 6), "op": inner,
+                    "gap": rng.choice([0, 0, 0, 0, 1, 3]), "stall": 0.012})
     # a second task that sits in its own wait_until on the same event type / topic / webhook id the whole time and
     # scribbles over the dictionary it is handed: what one waiter does with its result is not the other's business
     spec = {"conds": conds, "timeout": timeout, "buddy": rng.random() < 0.4}
+    # the MQTT client is slow (the subscription of the call suspends for some loop passes, as Home Assistant's
+    # async_subscribe does while the client is not ready) or not available (it then raises)
+    if "mqtt" in kinds and rng.random() < 0.45:
+        spec["mqtt_sub"] = {"passes": rng.choice([1, 2, 4, 7]), "fail": rng.random() < 0.25}
+        if rng.random() < 0.5:
+            # something happens right at the call, i.e. while the subscription is still being made
+            sid += 1
+            data = {"n": rng.randint(0, 3), "kind": rng.choice(["a", "7"]), "id": sid}
+            ops.append(rng.choice([
+                {"k": 0, "kind": "set", "e": "pyscript.v", "s": rng.choice(["0", "1", "2"])},
+                {"k": 0, "kind": "fire", "type": "ev_w", "data": data},
+                {"k": 0, "kind": "webhook", "id": "hook_w", "payload": data},
+            ]))
     fault = {"mode": "enumerate", "via": rng.choice(["reaper", "raw"]), "iter": None}
     return {"cfg": cfg, "spec": spec, "fault": fault, "ops": ops, "max_points": TIERS[tier]["max_points"]}
 
@@ -108,6 +183,8 @@ def _flt_src(flt, kind):
         var = {"n": "payload_obj['n']", "kind": "payload_obj['kind']"}
     else:
         var = {"n": "payload['n']", "kind": "payload['kind']"}
+    if flt == "syntax":
+        return f"{var['n']} > "
     return f"{var['n']} > 1" if flt == "n>1" else f"int({var['kind']}) >= 0"
 
 
@@ -177,11 +254,24 @@ def simplify(scn: dict):
         cand = copy.deepcopy(scn)
         cand["spec"]["buddy"] = False
         yield cand
+    if scn["spec"].get("mqtt_sub"):
+        cand = copy.deepcopy(scn)
+        del cand["spec"]["mqtt_sub"]
+        yield cand
+        if scn["spec"]["mqtt_sub"]["passes"] > 1:
+            cand = copy.deepcopy(scn)
+            cand["spec"]["mqtt_sub"]["passes"] = 1
+            yield cand
     for ci, cond in enumerate(scn["spec"]["conds"]):
         for key in ("hold", "hold_false", "check_now", "filter"):
             if cond.get(key) is not None:
                 cand = copy.deepcopy(scn)
                 cand["spec"]["conds"][ci][key] = None
+                yield cand
+        if isinstance(cond.get("spec"), list):
+            for part in cond["spec"]:
+                cand = copy.deepcopy(scn)
+                cand["spec"]["conds"][ci]["spec"] = part
                 yield cand
     for key, val in (("timer_late_ms", 0.0), ("cost_us", 50), ("exec_latency_ms", [0.0, 0.0]), ("set_order_salt", 0)):
         if scn["cfg"].get(key) != val:
@@ -222,11 +312,14 @@ def execute(scn: dict, k_cancel: int | None) -> dict:
         returned = any(m["args"][:2] in (["w", "ret"], ["w", "exc"]) for m in w.marks)
         if obs.get("end_iter") is not None:
             return  # the scenario is over (tear-down): not a cancellation point
-        obs["cancel"] = {"iter": w.loop.iterations, "vt": w.loop.vt, "done": done, "returned": returned}
+        obs["cancel"] = {"iter": w.loop.iterations, "vt": w.loop.vt, "done": done, "returned": returned,
+                         "in_sub": bool(obs.get("in_sub"))}
         if task is None or done or returned:
             return
         w.fault("cancel_at_iter")
         w.probe("cancel_while_subscribed")
+        if obs.get("in_sub"):
+            w.probe("cancel_during_suspended_subscribe")
         if via == "reaper":
             Function.reaper_cancel(task)
         else:
@@ -244,6 +337,36 @@ def execute(scn: dict, k_cancel: int | None) -> dict:
             obs["ret_iter"] = w.loop.iterations
 
     w.mark_hook = hook
+
+    # ---- seam: the first MQTT subscription made by the waiting call is slow (suspends) or fails
+    mqtt_sub = spec.get("mqtt_sub")
+    if mqtt_sub:
+        real_subscribe = w.broker.async_subscribe
+
+        async def slow_subscribe(hass, topic, msg_callback, qos=0, encoding="utf-8", job_type=None):
+            import asyncio
+
+            from homeassistant.exceptions import HomeAssistantError
+
+            if obs["task"] is not None and asyncio.current_task() is obs["task"] and not obs.get("sub_seen"):
+                obs["sub_seen"] = True
+                w.fault("mqtt_subscribe_suspended")
+                w.probe("subscribe_suspended")
+                obs["in_sub"] = True
+                try:
+                    for _ in range(mqtt_sub["passes"]):
+                        await asyncio.sleep(0)
+                finally:
+                    obs["in_sub"] = False
+                    obs["sub_end_iter"] = w.loop.iterations
+                if mqtt_sub.get("fail"):
+                    obs["sub_failed"] = True
+                    w.fault("mqtt_subscribe_failed")
+                    w.probe("subscribe_failed")
+                    raise HomeAssistantError("mqtt: client not available")
+            return await real_subscribe(hass, topic, msg_callback, qos=qos, encoding=encoding, job_type=job_type)
+
+        w.broker.async_subscribe = slow_subscribe
 
     async def driver(w: World):
         from homeassistant.core import Context
@@ -269,9 +392,20 @@ def execute(scn: dict, k_cancel: int | None) -> dict:
                     await w.sleep(t_call - w.loop.vt)
                 await call_now()
                 await w.passes(3)
+            near = None
+            if op["kind"] == "near":
+                # relative to the instant of the call itself (the timers of the wait are)
+                near = op
+                target = (obs["t0"] if obs.get("t0") is not None else t_call) + op["at"]
+                op = op["op"]
             if target > w.loop.vt:
                 await w.sleep(target - w.loop.vt)
             rec = {"vt": w.loop.vt, "op": op}
+            if near:
+                rec["near"] = True
+                w.probe("occurrence_just_before_timer_instant")
+            if obs.get("in_sub"):
+                rec["in_setup"] = True
             if op["kind"] == "set":
                 w.set_state(op["e"], op["s"], {})
             elif op["kind"] == "fire":
@@ -295,6 +429,11 @@ def execute(scn: dict, k_cancel: int | None) -> dict:
                 w.loop.stall(op["s"])
                 w.fault("stall")
             obs["stim"].append(rec)
+            if near:
+                if near["gap"]:
+                    await w.passes(near["gap"])
+                w.loop.stall(near["stall"])
+                w.fault("stall")
         if not called:
             if t_call > w.loop.vt:
                 await w.sleep(t_call - w.loop.vt)
@@ -326,6 +465,26 @@ def expected(scn: dict, obs: dict, dev: frozenset = frozenset()):
     if any(s["vt"] <= t0 for s in obs["stim"]):
         w.probe("occurrence_before_call")
     immediate = []
+    setup_dontcare = False
+    if any(c.get("filter") == "syntax" for c in spec["conds"]):
+        # an expression that does not parse: the call raises; what it would have returned is not defined
+        w.probe("setup_parse_error")
+        if len(spec["conds"]) > 1:
+            w.probe("setup_parse_error_with_other_conditions")
+        setup_dontcare = True
+    if obs.get("sub_failed"):
+        setup_dontcare = True
+    targets = {"fire": ("type", "ev_w", "event"), "mqtt": ("topic", "t/w", "mqtt"), "webhook": ("id", "hook_w", "webhook")}
+    for s in stim:
+        if not s.get("in_setup"):
+            continue
+        op = s["op"]
+        if (op["kind"] == "set" and op["e"] == "pyscript.v" and "state" in conds) or (
+                op["kind"] in targets and op[targets[op["kind"]][0]] == targets[op["kind"]][1]
+                and targets[op["kind"]][2] in conds):
+            # an occurrence while the call is still subscribing: the documentation leaves open whether it counts
+            w.probe("occurrence_during_suspended_subscribe")
+            setup_dontcare = True
     # ---- state
     if "state" in conds:
         cond = conds["state"]
@@ -387,7 +546,9 @@ def expected(scn: dict, obs: dict, dev: frozenset = frozenset()):
     # ---- time
     has_future_time = False
     if "time" in conds:
-        spec_t = conds["time"]["spec"]
+        spec_t = str(conds["time"]["spec"])
+        if "shutdown" in spec_t:
+            w.probe("shutdown_among_time_specs")
         if "now + 1.42s" in spec_t:
             cands.append((t0 + 1.42, "time", None))
             has_future_time = True
@@ -399,6 +560,8 @@ def expected(scn: dict, obs: dict, dev: frozenset = frozenset()):
         cands.append((t0 + spec["timeout"], "timeout", {"trigger_type": "timeout"}))
         if spec["timeout"] == 0:
             w.probe("timeout_zero")
+    if setup_dontcare:
+        return [], True
     only_time = set(conds) == {"time"}
     if only_time and not has_future_time and spec["timeout"] is None:
         return [(t0, "none", {"trigger_type": "none"})], False
@@ -408,7 +571,17 @@ def expected(scn: dict, obs: dict, dev: frozenset = frozenset()):
     first_t = cands[0][0]
     if raised_at is not None and raised_at <= first_t + 1e-9:
         return [], True
-    ok = [c for c in cands if c[0] <= first_t + 1e-6]
+    tie = 1e-6
+    if any(s.get("near") for s in stim):
+        # an occurrence and a timer instant inside one stall of the loop are simultaneous for it
+        tie = 0.03
+    ok = [c for c in cands if c[0] <= first_t + tie]
+    if immediate and first_t <= t0 + 1e-9:
+        # the state expression is checked at the call, before anything is waited for: an expression that is
+        # already true is the first qualifying occurrence, whatever the timeout (0 included)
+        if len(ok) > 1:
+            w.probe("timeout_zero_with_true_state")
+        ok = [c for c in ok if c[1] == "state"]
     return ok, False
 
 
@@ -464,6 +637,15 @@ def _outcome(scn: dict, obs: dict, rets: list, excs: list, kinds: list, dev: fro
     return out
 
 
+def _near_race(scn: dict, obs: dict) -> bool:
+    """The reference outcome is a timer instant (time specification or timeout) that a 'near' occurrence preceded
+    by a few ms - used only to label a mismatch."""
+    exp, dontcare = expected(scn, obs)
+    if dontcare or not exp or exp[0][1] not in ("time", "timeout"):
+        return False
+    return any(s.get("near") and -1e-9 <= exp[0][0] - s["vt"] <= 0.03 for s in obs["stim"])
+
+
 def _short(val, other):
     """Only the entries of a census table that differ from the other side."""
     if isinstance(val, dict) and isinstance(other, dict):
@@ -487,8 +669,17 @@ def judge(scn: dict, obs: dict, sub: str) -> list:
     if obs.get("t0") is None:
         viol("C15.not_called", {}, "the waiter service never started")
         return out
+    parse_error = any(c.get("filter") == "syntax" for c in scn["spec"]["conds"])
     if excs:
         exit_path = "exception"
+        if parse_error or obs.get("sub_failed"):
+            exit_path = "setup_exception"  # the call raised while it was setting its conditions up
+    if landed and cancel.get("in_sub"):
+        exit_path = "cancelled_in_setup"  # cancelled while a subscription of the set-up phase was suspended
+    if exit_path == "return" and rets and obs.get("sub_end_iter") is not None and obs.get("ret_iter") is not None \
+            and obs["ret_iter"] - obs["sub_end_iter"] <= 1:
+        exit_path = "return_in_setup"  # what ended the wait happened while a subscription was still suspended
+        w.probe("returned_by_occurrence_in_setup")
     # ---- outcome (fault-free path only)
     if not landed:
         found = _outcome(scn, obs, rets, excs, kinds, frozenset())
@@ -516,19 +707,29 @@ def judge(scn: dict, obs: dict, sub: str) -> list:
             for cls, sig, detail in found:
                 if why != "unexplained":
                     sig = {"why": why}
+                elif _near_race(scn, obs):
+                    sig = {**sig, "race": "occurrence_just_before_timer_instant"}
                 viol(cls, sig, detail)
     # ---- the task must be over and everything released
     if not obs["finished"]:
         exp, dontcare = expected(scn, obs) if not landed else ([], True)
-        if landed or exp:
-            viol("C15.task_never_finished", {"exit": exit_path}, "the waiting task is still alive 5 s after the last occurrence")
+        if landed or exp or parse_error:
+            if parse_error and not landed:
+                exit_path = "setup_exception"
+            sig = {"exit": exit_path}
+            if not landed and _near_race(scn, obs):
+                sig["race"] = "occurrence_just_before_timer_instant"
+            viol("C15.task_never_finished", sig, "the waiting task is still alive 5 s after the last occurrence")
         return out
     c0, c1 = obs["census0"], obs["census1"]
     leaked = sorted(k for k in c0 if c0[k] != c1[k])
     if leaked:
+        group = {"state_notify": "state", "event_notify": "event", "listeners": "event", "mqtt_notify": "mqtt",
+                 "mqtt_subs": "mqtt", "webhook_notify": "webhook", "webhooks": "webhook"}
+        what = "+".join(sorted({group.get(k, "tasks") for k in leaked}))
         viol("C15.leak_after_exit", {"exit": exit_path},
              f"{_call_src(scn['spec'])} exit={exit_path}" + (f" (cancel via {scn['fault']['via']} at pass "
-             f"+{scn['fault'].get('iter')})" if landed else "") + ": census before the call "
+             f"+{scn['fault'].get('iter')})" if landed else "") + f": leaked {what}: census before the call "
              f"{ {k: c0[k] for k in leaked} } != after the task ended { {k: c1[k] for k in leaked} }")
     if w.ha_exceptions:
         viol("C15.escaped_to_ha", {"exit": exit_path}, f"Home Assistant logged/handled: {w.ha_exceptions[:2]}")
